@@ -22,6 +22,7 @@ import Driver.Aiff
 import Driver.Ledger
 import Driver.Meta
 import Driver.Ieee
+import Driver.Dwvw
 open Sf
 
 def lawOf (s : String) : Option G711.Law :=
@@ -89,4 +90,5 @@ def main (args : List String) : IO UInt32 := do
   | "ledger" :: _ => LedgerDriver.cmd
   | "meta" :: rest => do MetaCmd.run rest (← readLines)
   | "ieee" :: rest => Driver.Ieee.cmd rest
+  | "dwvw" :: rest => Driver.Dwvw.cmd rest
   | _ => IO.eprintln "usage: sfmodel <g711|...> ..."; return 2
